@@ -18,6 +18,16 @@
 
   Modelled rather than verified: the Lean model `parseSIPMsg` is tied to parse_msg.go etc. by the correspondence
   check (same sessions run on the Go code and on this model) and by the regenerated facts in `Sipsp.Tie`.
+  Extension file `Properties/C01x.lean` (theorems from `Sipsp.Proofs.MsgLastFlags`, a layer that imports this file): the
+  flags of the LAST call may differ — `schedule_msg_last_flags(_init)`: for every growing sequence of prefixes, every flag
+  word `f` for the calls before the last and every `f'` for the last (no hypothesis on either), the chain equals the
+  fresh calls on the same buffers (same offset, verdict, object up to the observation after an error);
+  `schedule_msg_last_flags_more`, `schedule_msg_last_nmd`: with the no-more-data flag on the final call only, the chain
+  returns what ONE call with the flag on the whole input returns (side condition: no earlier buffer is already a
+  complete body-to-end message; tests show it and "earlier calls do not carry the flag" are needed);
+  `schedule_msg_truncated_body`: a message whose body is shorter than its Content-Length, fed in pieces, is reported OK
+  with the truncated body when the final call carries the flag, and ends with MoreBytes at the body start without it;
+  `flags_switch`: a definitive result without the no-more-data flag is also the result with it.
 -/
 import Sipsp.Proofs.MsgL2
 
